@@ -53,7 +53,7 @@ def meta_tok(m):
         return m
     hk, mk0, mk1, ssz, priv, pad = m
     hdrlen = 5 + (21 if hk else 0) + 49 + ((5 + pad) if pad else 0)
-    return "K%d,%d,%d,%d,%d,%d,%d" % (hk, mk0, mk1, ssz, priv, pad, hdrlen)
+    return "K%d,%d,%d,%d,%d,%d,%d" % (hk, mk0 & U64, mk1 & U64, ssz & U64, priv, pad, hdrlen)
 
 
 def slot_tok(s):
@@ -61,8 +61,9 @@ def slot_tok(s):
         return "E"
     if isinstance(s, tuple):
         return "T%d" % s[1]
-    return "H:%d:%d:%d:%d:%d:%d:%d:%s" % (s["k0"], s["k1"], s["esz"], s["psz"], s["ver"], s["first"], s["next"],
-                                          meta_tok(s["meta"]))
+    i32 = lambda v: max(-(1 << 31), min((1 << 31) - 1, v))
+    return "H:%d:%d:%d:%d:%d:%d:%d:%s" % (s["k0"] & U64, s["k1"] & U64, s["esz"] & U64, s["psz"] & 0xFFFFFFFF,
+                                          s["ver"] & 0xFFFFFFFF, i32(s["first"]), i32(s["next"]), meta_tok(s["meta"]))
 
 
 def case_line(N, dbl, slots):
@@ -260,8 +261,135 @@ def gen_cases(rng, n):
     return [gen_image(rng) for _ in range(n)]
 
 
-def oracle_sig(case, out):
+# ---------------------------------------------------------------- oracle: the property, stated on the image and the index
+def sane(h, N, ssz):
+    return (h["kind"] == "H" and 0 <= h["first"] < N and -1 <= h["next"] < N and h["ver"] > 0 and
+            0 < h["psz"] <= ssz - HDR)
+
+
+def is_empty(h):
+    return h["kind"] != "T" and h["first"] == 0 and h["next"] == 0 and h["psz"] == 0
+
+
+def intact_chains(N, ssz, slots):
+    """Chains that are intact on disk and not interfered with by anything else in the image, as
+    {inode: (key, [slot ids], total size)}: the inode names itself as first slot and carries well-formed swap
+    metadata for the same key; following nextSlot visits distinct sane slots with the same key, version and
+    firstSlot and ends with -1; the payload sizes add up to the declared size (inode entrySize, else the swap
+    metadata size, else whatever the chain holds); no other used slot hashes to the same index position and no
+    slot outside the chain links into it."""
+    live = [i for i in range(N) if slots[i]["kind"] == "H" and not is_empty(slots[i]) and sane(slots[i], N, ssz)]
+    res = {}
+    for ino in live:
+        h = slots[ino]
+        m = h["meta"]
+        if h["first"] != ino or not isinstance(m, dict) or not m["hk"] or m["priv"]:
+            continue
+        if (m["mk0"], m["mk1"]) != (h["k0"], h["k1"]) or (h["k0"], h["k1"]) == (0, 0):
+            continue
+        chain, cur, ok = [], ino, True
+        while cur != -1:
+            if cur in chain or cur not in live:
+                ok = False; break
+            c = slots[cur]
+            if (c["k0"], c["k1"], c["ver"], c["first"]) != (h["k0"], h["k1"], h["ver"], ino):
+                ok = False; break
+            chain.append(cur)
+            cur = c["next"]
+        if not ok:
+            continue
+        total = sum(slots[c]["psz"] for c in chain)
+        E = h["esz"]
+        if E:
+            if E != total or m["ssz"] not in (0, E, (E - m["hdrlen"]) & U64):
+                continue
+        elif m["ssz"] not in (0, total):
+            continue
+        f = fileno(N, h["k0"], h["k1"])
+        if any(i not in chain and fileno(N, slots[i]["k0"], slots[i]["k1"]) == f for i in live):
+            continue
+        if any(i not in chain and slots[i]["next"] in chain for i in live):
+            continue
+        res[ino] = ((h["k0"], h["k1"]), chain, total)
+    return res
+
+
+def oracle(case, out):
+    """None, or (signature, description) naming the first way in which the implementation's index violates C57."""
+    N, ssz, dbl, slots = parse_case(case)
+    if not out.startswith("ok "):
+        # why did it die? (only used to give the known defects their own signatures)
+        allones = any(s["kind"] == "H" and (s["esz"] == U64 or (isinstance(s["meta"], dict) and s["meta"]["ssz"] == U64))
+                      for s in slots)
+        if out.startswith("CRASH assert") and allones:
+            return ("oracle:crash-size-allones", "rebuild aborted on an image holding an all-ones size field: " + out[:80])
+        if out.startswith("CRASH exc") and dbl:
+            return ("oracle:crash-doublecheck", "rebuild died in the -S slot validation pass: " + out[:80])
+        return ("oracle:crash", "rebuild did not terminate normally: " + out[:120])
+    try:
+        head, ents, sls, free = parse_out(out)
+    except Exception as ex:
+        return ("oracle:unparsable", "unparsable implementation output (%s)" % ex)
+    if len(set(free)) != len(free):
+        return ("oracle:double-free", "a slot is in the free-slot index twice")
+    freeset = set(free)
+    owner = {}
+    indexed = {}
+    for f in sorted(ents):
+        e = ents[f]
+        if e["writing"]:
+            return ("oracle:left-locked", "entry %d is still locked for writing after the rebuild" % f)
+        if e["readers"] or e["wtbf"] or (e["k0"], e["k1"]) == (0, 0):
+            continue
+        # e is readable: walk its chain
+        chain, cur = [], e["start"]
+        while cur != -1:
+            if not (0 <= cur < N) or cur not in sls or sls[cur]["size"] <= 0:
+                return ("oracle:chain-broken", "entry %d: chain %s leads to slot %d which holds nothing" % (f, chain, cur))
+            if cur in chain:
+                return ("oracle:chain-cycle", "entry %d: chain %s returns to slot %d" % (f, chain, cur))
+            chain.append(cur)
+            cur = sls[cur]["next"]
+        if not chain:
+            return ("oracle:chain-empty", "entry %d is readable but has no slots" % f)
+        for c in chain:
+            if c in owner:
+                return ("oracle:shared-slot", "slot %d is used by entries %d and %d" % (c, owner[c], f))
+            owner[c] = f
+            if c in freeset:
+                return ("oracle:chain-slot-free", "entry %d uses slot %d which is also in the free-slot index" % (f, c))
+            d = slots[c]
+            if d["kind"] != "H" or is_empty(d) or not sane(d, N, ssz):
+                return ("oracle:slot-not-on-disk", "entry %d uses slot %d which holds no valid cell on disk" % (f, c))
+            if d["psz"] != sls[c]["size"] or d["next"] != sls[c]["next"]:
+                return ("oracle:slice-differs", "entry %d slot %d: index says size/next %d/%d, disk says %d/%d"
+                        % (f, c, sls[c]["size"], sls[c]["next"], d["psz"], d["next"]))
+        total = sum(sls[c]["size"] for c in chain)
+        if total != e["swapsz"]:
+            return ("oracle:size-sum", "entry %d: payload sizes of chain %s add up to %d, entry size is %d" % (f, chain, total, e["swapsz"]))
+        if slots[chain[0]]["first"] != chain[0]:
+            return ("oracle:no-inode", "entry %d: chain %s does not start at an inode slot" % (f, chain))
+        keys = set((slots[c]["k0"], slots[c]["k1"]) for c in chain)
+        if len(keys) > 1:
+            return ("oracle:key-mix", "entry %d: chain %s mixes slots of different keys" % (f, chain))
+        if (e["k0"], e["k1"]) not in keys:
+            return ("oracle:key-from-metadata", "entry %d is indexed under a key none of its slots carries" % f)
+        if fileno(N, e["k0"], e["k1"]) != f:
+            return ("oracle:key-misplaced", "entry %d is indexed under a key that hashes elsewhere" % f)
+        if len(set(slots[c]["ver"] for c in chain)) > 1:
+            return ("oracle:version-mix", "entry %d: chain %s mixes slots of different versions" % (f, chain))
+        if any(slots[c]["first"] != chain[0] for c in chain):
+            return ("oracle:first-slot-mix", "entry %d: chain %s holds a slot that names another first slot" % (f, chain))
+        indexed[chain[0]] = ((e["k0"], e["k1"]), chain, total)
+    for ino, want in sorted(intact_chains(N, ssz, slots).items()):
+        if indexed.get(ino) != want:
+            return ("oracle:intact-not-indexed", "intact, unique chain %s of key %s is not indexed as such (got %s)"
+                    % (want[1], want[0], indexed.get(ino)))
     return None
+
+
+def oracle_sig(case, out):
+    return oracle(case, out)
 
 
 def mutate(rng, case):
